@@ -88,6 +88,16 @@ def diskRead (s : Disk) (rid n : Nat) : Disk × Out :=
     | none => s
   s1.step (.read rid n)
 
+/-- `dreadgc`: the collector runs inside the rotation step, after the reader's
+    close observer for the old segment (repaired order: the next segment is
+    already referenced then) -/
+def diskReadGc (s : Disk) (rid n : Nat) : Disk × Out :=
+  let s1 := match findReader s.readers rid with
+    | some r => if s.canAdvance r then
+        (((s.step (.advAcquire rid)).1.step (.advRelease rid)).1.step .gc).1 else s
+    | none => s
+  s1.step (.read rid n)
+
 def handleDisk (s : Disk) : List String → Option (Disk × String)
   | ["dnew", a, b] => some (Disk.init a.toNat! b.toNat!, "ok")
   | ["dsetrun", id] => let (s', o) := s.step (.setRunId id); some (s', outStr o)
@@ -111,6 +121,7 @@ def handleDisk (s : Disk) : List String → Option (Disk × String)
       | none => true)
     let (s', o) := s.step (.openReader rid.toNat! off.toNat! crcOk); some (s', outStr o)
   | ["dread", rid, n] => let (s', o) := diskRead s rid.toNat! n.toNat!; some (s', outStr o)
+  | ["dreadgc", rid, n] => let (s', o) := diskReadGc s rid.toNat! n.toNat!; some (s', outStr o)
   | ["dclose", rid] => let (s', o) := s.step (.closeReader rid.toNat!); some (s', outStr o)
   | ["dq", ps] => some (s, diskQuery s (parseNats ps))
   | ["dq"] => some (s, diskQuery s [])
@@ -150,16 +161,34 @@ def handleMem (s : Mem) : List String → Option (Mem × String)
   | ["mrdbw", a, b] => let (s', o) := s.step (.newRdbWriter a.toNat! b.toNat!); some (s'.settle, outStr o)
   | ["mrdba", h] =>
     match Hex.decode h with
-    | some bs => let (s', o) := s.step (.rdbAppend bs); some (s'.settle, outStr o)
+    | some bs =>
+      -- the harness looks at the writer after every goroutine has settled: an
+      -- append that had to wait but got its space meanwhile shows as completed
+      let (s', o) := s.step (.rdbAppend bs)
+      let s2 := s'.settle
+      let o' := match o with
+        | .blocked _ => if s2.pendR.isNone then
+            (match s2.rdb with
+             | some r => if r.writing then Out.ok else Out.done
+             | none => Out.done) else o
+        | _ => o
+      some (s2, outStr o')
     | none => none
   | ["mrdbc"] => let (s', o) := s.step .rdbClose; some (s'.settle, outStr o)
   | ["maofw", a] => let (s', o) := s.step (.newAofWriter a.toNat!); some (s'.settle, outStr o)
   | ["maofa", h] =>
     match Hex.decode h with
-    | some bs => let (s', o) := s.step (.aofAppend bs); some (s'.settle, outStr o)
+    | some bs =>
+      let (s', o) := s.step (.aofAppend bs)
+      let s2 := s'.settle
+      let o' := match o with
+        | .blocked _ => if s2.pendA.isNone then Out.ok else o
+        | _ => o
+      some (s2, outStr o')
     | none => none
   | ["maofc"] => let (s', o) := s.step .aofClose; some (s'.settle, outStr o)
   | ["mopen", rid, off] => let (s', o) := s.step (.openReader rid.toNat! off.toNat!); some (s'.settle, outStr o)
+  | ["mstart", rid] => let (s', o) := s.step (.startReader rid.toNat!); some (s'.settle, outStr o)
   | ["mread", rid, n] => let (s', o) := s.settle.step (.consume rid.toNat! n.toNat!); some (s'.settle, outStr o)
   | ["mclose", rid] => let (s', o) := s.step (.closeReader rid.toNat!); some (s'.settle, outStr o)
   | ["mq", ps] => some (s, memQuery s (parseNats ps))
